@@ -91,8 +91,23 @@ fn mutate(s: &Synth, rng: &mut Rng) -> (&'static str, Vec<u8>) {
     let blocks = img.len() / BLOCK;
     let version = s.version;
     let pick_record = |rng: &mut Rng| -> Option<(u64, u64, Vec<u8>)> { if s.records.is_empty() { None } else { Some(rng.pick(&s.records).clone()) } };
-    match rng.below(22) {
+    match rng.below(23) {
         0 => ("valid", img),
+        22 => {
+            // no signature at all; the only content sits in the last third of the file (written sparsely, so the
+            // file has a long leading hole): not a FeOx device, must be rejected untouched
+            let from = (blocks * 2 / 3).max(17) * BLOCK;
+            let keep = img[from..].to_vec();
+            img.fill(0);
+            if keep.iter().all(|b| *b == 0) {
+                let n = img.len();
+                let garbage = rng.bytes(64);
+                img[n - 4096..n - 4096 + 64].copy_from_slice(&garbage);
+            } else {
+                img[from..].copy_from_slice(&keep);
+            }
+            ("sparse-content-in-tail-only", img)
+        }
         1 => {
             let n = *rng.pick(&[16usize, 17, 20, 33]);
             ("random-bytes", rng.bytes(n * BLOCK))
@@ -334,7 +349,21 @@ pub fn child(args: &Args) -> ! {
         let s = synth(&mut rng);
         let (mutator, image) = mutate(&s, &mut rng);
         let path = format!("{dir}/{tag}-{i}.feox");
-        std::fs::write(&path, &image).unwrap();
+        // a third of the images (and always the one whose content is in its tail only) are written sparsely:
+        // holes instead of zero blocks, which the store's "is this file empty?" probe treats differently
+        if mutator == "sparse-content-in-tail-only" || rng.chance(1, 3) {
+            use std::os::unix::fs::FileExt;
+            let f = std::fs::File::create(&path).unwrap();
+            f.set_len(image.len() as u64).unwrap();
+            for (b, chunk) in image.chunks(BLOCK).enumerate() {
+                if chunk.iter().any(|x| *x != 0) {
+                    f.write_all_at(chunk, (b * BLOCK) as u64).unwrap();
+                }
+            }
+            f.sync_all().unwrap();
+        } else {
+            std::fs::write(&path, &image).unwrap();
+        }
         writeln!(log, "{{\"start\": {i}, \"mutator\": \"{mutator}\"}}").unwrap();
         log.flush().unwrap();
         let before = fnv(&image);
@@ -411,7 +440,7 @@ pub fn child(args: &Args) -> ! {
 pub fn run(args: &Args) -> Report {
     let mut report = Report::new(
         "fuzzopen",
-        "device images synthesised by the independent codec (v1/v2/v3, 17-128 blocks, records of 1-3 blocks, complete retirement extents, journal absent/clear/active) and mutated by 21 mutators: random bytes; bit flips anywhere / biased to metadata, journal and block heads; block swap/duplicate/zero; size changes (<=reserved area, non-multiple, truncated); structure-aware forgeries with recomputed tokens and checksums (value_len 0/2^32/2^63/MAX/beyond device, key_len 0/4066+/65535, records swallowing neighbours, marker remaining 0/huge/overflowing/state bytes, journal extents below block 16/beyond device/overlapping/1025 entries/generation MAX/unknown version, journal header fields that lie about entry count (1025..2^32-1), state or generation with the checksum pair left consistent or recomputed, metadata version 0/4, wrong device size, generation MAX, wrong block size); bad or zeroed signatures; zeroed extent tails. Each image is opened in a child under catch_unwind + panic hook with a probe workload on stores that open; aborts and hangs are caught by the parent. distinct non-trivial = (mutator, version, outcome, size class) cells; non-trivial = everything except untouched valid images",
+        "device images synthesised by the independent codec (v1/v2/v3, 17-128 blocks, records of 1-3 blocks, complete retirement extents, journal absent/clear/active) and mutated by 22 mutators (a third of the files written sparsely): random bytes; bit flips anywhere / biased to metadata, journal and block heads; block swap/duplicate/zero; size changes (<=reserved area, non-multiple, truncated); structure-aware forgeries with recomputed tokens and checksums (value_len 0/2^32/2^63/MAX/beyond device, key_len 0/4066+/65535, records swallowing neighbours, marker remaining 0/huge/overflowing/state bytes, journal extents below block 16/beyond device/overlapping/1025 entries/generation MAX/unknown version, journal header fields that lie about entry count (1025..2^32-1), state or generation with the checksum pair left consistent or recomputed, metadata version 0/4, wrong device size, generation MAX, wrong block size); bad or zeroed signatures; zeroed extent tails. Each image is opened in a child under catch_unwind + panic hook with a probe workload on stores that open; aborts and hangs are caught by the parent. distinct non-trivial = (mutator, version, outcome, size class) cells; non-trivial = everything except untouched valid images",
     );
     let shard = args.num("shard", 0);
     let shards = args.num("shards", 1).max(1);
